@@ -214,12 +214,16 @@ func (w *World) monQos2Once(h []ev) {
 		return "?"
 	}
 	pendingRel := map[int]map[packet.ID]bool{}
+	mode := "sync"
+	tainted := map[string]bool{} // handed to the backend while it was not acknowledging synchronously
 	for _, e := range h {
 		switch e.kind {
+		case "ackmode":
+			mode = e.txt
 		case "stim-send":
 			switch p := e.pkt.(type) {
 			case *packet.Publish:
-				if p.Message.QOS == 2 {
+				if p.Message.QOS == 2 && len(p.Message.Payload) > 0 {
 					byID[fmt.Sprintf("%s|%d", cid(e.conn), p.ID)] = string(p.Message.Payload)
 				}
 			case *packet.Pubrel:
@@ -230,12 +234,27 @@ func (w *World) monQos2Once(h []ev) {
 					pendingRel[e.conn][p.ID] = true
 				}
 			}
+		case "setup":
+			if e.txt == "0" {
+				for k := range byID {
+					if strings.HasPrefix(k, cid(e.conn)+"|") {
+						delete(byID, k)
+					}
+				}
+			}
 		case "bpublish":
-			if p, ok := e.pkt.(*packet.Publish); ok && p.Message.QOS == 2 && !strings.HasPrefix(string(p.Message.Payload), "will-") {
+			if p, ok := e.pkt.(*packet.Publish); ok && p.Message.QOS == 2 && len(p.Message.Payload) > 0 && !strings.HasPrefix(string(p.Message.Payload), "will-") {
 				k := cid(e.conn) + "|" + string(p.Message.Payload)
 				count[k]++
+				if mode != "sync" {
+					tainted[k] = true
+				}
 				if count[k] > 1 {
-					w.hit("qos2-forwarded-twice", fmt.Sprintf("QoS 2 message %q of client %s handed to the backend %d times", p.Message.Payload, cid(e.conn), count[k]))
+					kind := "qos2-forwarded-twice"
+					if tainted[k] {
+						kind += "/late-ack"
+					}
+					w.hit(kind, fmt.Sprintf("QoS 2 message %q of client %s handed to the backend %d times", p.Message.Payload, cid(e.conn), count[k]))
 				}
 			}
 		case "sent":
@@ -251,7 +270,7 @@ func (w *World) monQos2Once(h []ev) {
 		}
 	}
 	for k := range comp {
-		if count[k] != 1 {
+		if count[k] != 1 && !tainted[k] {
 			w.hit("qos2-not-exactly-once", fmt.Sprintf("QoS 2 message %s completed (PUBCOMP sent) but handed to the backend %d times", k, count[k]))
 		}
 	}
@@ -284,6 +303,7 @@ func (w *World) monDelivery(h []ev) {
 		topic  string
 		retain bool
 	}
+	handed := map[string]int{}     // payload tag -> times handed to the backend (QoS 1 retransmissions are legitimately forwarded again)
 	pubs := map[string]pub{}       // payload tag -> publish
 	copies := map[string]int{}     // conn|tag -> non-dup live copies
 	everSub := map[string]map[string]bool{}
@@ -315,6 +335,10 @@ func (w *World) monDelivery(h []ev) {
 					pubs[string(p.Message.Payload)] = pub{p.Message.QOS, p.Message.Topic, p.Message.Retain}
 				}
 			}
+		case "bpublish":
+			if p, ok := e.pkt.(*packet.Publish); ok {
+				handed[string(p.Message.Payload)]++
+			}
 		case "setup":
 			if e.txt == "0" {
 				// fresh session for this connection
@@ -327,6 +351,9 @@ func (w *World) monDelivery(h []ev) {
 				continue
 			}
 			tag := string(p.Message.Payload)
+			if tag == "" {
+				continue // empty payloads carry no tag (a retained-clear publish reaches current subscribers)
+			}
 			orig, known := pubs[tag]
 			if !known {
 				w.hit("delivery-unknown-message", fmt.Sprintf("connection %d received %s which nobody published", e.conn, e.txt))
@@ -363,7 +390,7 @@ func (w *World) monDelivery(h []ev) {
 			if !p.Dup && !p.Message.Retain {
 				ck := fmt.Sprintf("%d|%s", e.conn, tag)
 				copies[ck]++
-				if copies[ck] > 1 {
+				if copies[ck] > handed[tag] {
 					w.hit("duplicate-delivery", fmt.Sprintf("connection %d received message %q %d times as a fresh delivery", e.conn, tag, copies[ck]))
 				}
 			}
@@ -371,24 +398,34 @@ func (w *World) monDelivery(h []ev) {
 	}
 }
 
-// C15: messages of one publisher at one QoS reach a subscriber (at one QoS) in publication order
+// C15: messages one client hands to the broker at one QoS reach a subscriber (at one QoS) in the
+// order in which the broker accepted them (for QoS 2 that is the order of the PUBRELs)
 func (w *World) monOrder(h []ev) {
-	seqOf := map[string]int{}  // tag -> global publish sequence
+	seqOf := map[string]int{}
 	pubOf := map[string]string{}
+	again := map[string]bool{}
+	cid := func(c int) string {
+		if p := w.peers[c]; p != nil {
+			return p.clientID
+		}
+		return "?"
+	}
 	n := 0
 	for _, e := range h {
-		if e.kind == "stim-send" {
-			if p, ok := e.pkt.(*packet.Publish); ok && len(p.Message.Payload) > 0 && !p.Dup {
+		if e.kind == "bpublish" {
+			if p, ok := e.pkt.(*packet.Publish); ok && len(p.Message.Payload) > 0 {
 				n++
 				tag := string(p.Message.Payload)
 				if _, seen := seqOf[tag]; !seen {
 					seqOf[tag] = n
-					pubOf[tag] = fmt.Sprintf("%d|%d", e.conn, p.Message.QOS)
+					pubOf[tag] = fmt.Sprintf("%s|%d", cid(e.conn), p.Message.QOS)
+				} else {
+					again[tag] = true // handed on more than once (QoS 1 retransmission): no order claim
 				}
 			}
 		}
 	}
-	last := map[string]int{} // receiver conn | publisher|qos | delivered qos -> last seq
+	last := map[string]int{}
 	for _, e := range h {
 		if e.kind != "sent" {
 			continue
@@ -399,23 +436,39 @@ func (w *World) monOrder(h []ev) {
 		}
 		tag := string(p.Message.Payload)
 		s, ok := seqOf[tag]
-		if !ok {
+		if !ok || again[tag] {
 			continue
 		}
 		k := fmt.Sprintf("%d|%s|%d", e.conn, pubOf[tag], p.Message.QOS)
 		if s < last[k] {
-			w.hit("order-violated", fmt.Sprintf("connection %d received %q (publish #%d) after publish #%d of the same publisher and QoS", e.conn, tag, s, last[k]))
+			w.hit("order-violated", fmt.Sprintf("connection %d received %q (accepted #%d) after #%d of the same publisher and QoS", e.conn, tag, s, last[k]))
 		}
-		last[k] = s
+		if s > last[k] {
+			last[k] = s
+		}
 	}
 }
 
 // C16: never more than `window` QoS>0 deliveries unacknowledged towards one connection
 func (w *World) monWindow(h []ev) {
 	inflight := map[int]map[packet.ID]bool{}
+	spuriousID := map[string]bool{} // the peer acknowledged something it never received: it widened its own window
+	cidOf := func(c int) string {
+		if p := w.peers[c]; p != nil && p.clientID != "" {
+			return p.clientID
+		}
+		return fmt.Sprintf("conn%d", c)
+	}
+	spurious := map[int]bool{}
 	for _, e := range h {
+		if spuriousID[cidOf(e.conn)] {
+			spurious[e.conn] = true
+		}
 		switch e.kind {
 		case "sent":
+			if spurious[e.conn] {
+				continue
+			}
 			if p, ok := e.pkt.(*packet.Publish); ok && p.Message.QOS > 0 {
 				if inflight[e.conn] == nil {
 					inflight[e.conn] = map[packet.ID]bool{}
@@ -434,8 +487,14 @@ func (w *World) monWindow(h []ev) {
 		case "stim-send":
 			switch p := e.pkt.(type) {
 			case *packet.Puback:
+				if !inflight[e.conn][p.ID] {
+					spuriousID[cidOf(e.conn)] = true
+				}
 				delete(inflight[e.conn], p.ID)
 			case *packet.Pubcomp:
+				if !inflight[e.conn][p.ID] {
+					spuriousID[cidOf(e.conn)] = true
+				}
 				delete(inflight[e.conn], p.ID)
 			}
 		}
